@@ -1,5 +1,6 @@
 import MdwModel.Driver.Live
 import MdwModel.Model.SoftErrors
+import MdwModel.Model.Canonical
 namespace Mdw.Drv.C11
 open Mdw Mdw.Drv Mdw.Drv.Live
 
@@ -42,6 +43,30 @@ def run (kv : List (String × String)) : IO Res := do
     if mask == 0 && !principalUnref && !tree.isEmpty then return .propfail "nothing failed but the list is not empty" tags
     -- the system-info stream must still be complete apart from the cpu fields
     if f.cpuInfo && !present ST_SYSTEM_INFO then return .propfail "system info missing" tags
+    -- all other streams intact: the same request with nothing failing gives the same dump, except for what the failed
+    -- steps feed (thread-dependent streams when attaching fails, names, linker data / module order / gate name when the
+    -- auxiliary vector is incomplete, the cpu fields of the system information)
+    if let some refB ← readSidecar kv "ref" then
+      let some cr := canonical (imgOf refB) | return .bad "reference image"
+      let some cf := canonical img | return .propfail "image under faults does not decode" tags
+      let sys (l : List String) := l.find? (·.startsWith "sysinfo ")
+      let words (o : Option String) := (o.getD "").splitOn " "
+      let (sr, sf) := (words (sys cr), words (sys cf))
+      -- sysinfo arch level revision ncpu platform os… vendor
+      if sr[1]? != sf[1]? then return .propfail s!"system info: architecture {sf[1]?} under faults, {sr[1]?} without" tags
+      if sr[5]? != sf[5]? then return .propfail s!"system info: platform {sf[5]?} under faults, {sr[5]?} without" tags
+      if (sr.drop 6).dropLast != (sf.drop 6).dropLast then return .propfail "system info: OS version string differs under faults" tags
+      if !f.cpuInfo && sys cr != sys cf then return .propfail "system info differs although the cpu information step did not fail" tags
+      let keep (l : String) : Bool :=
+        !(l.startsWith "sysinfo ") && !(l.startsWith "hdr ") &&
+        !(f.suspend && (l.startsWith "threads " || l.startsWith " t " || l.startsWith "memory " || l.startsWith " r " || l.startsWith "exception " || l.startsWith "names ")) &&
+        !(f.threadName && l.startsWith "names ") &&
+        !(f.fillAuxv && (l.startsWith "dso " || l.startsWith " l " || l.startsWith "modules " || l.startsWith " m " || l.startsWith "raw " || l == "unused"))
+      let (a, b) := (cr.filter keep, cf.filter keep)
+      if a != b then
+        let k := ((a.zip b).takeWhile (fun (x, y) => x == y)).length
+        return .propfail s!"a stream other than those of the failed steps differs from the fault-free dump: `{(b[k]?).getD "(missing)"}` vs `{(a[k]?).getD "(missing)"}`" tags
+      tags := "others.intact" :: tags
   | "badname" =>
     if !tree.contains "InitErrors/EnumerateThreadsErrors/ReadThreadNameFailed" then
       return .propfail "an unreadable thread name was not reported" tags
